@@ -197,7 +197,14 @@ def build(net: Net, *, rng=None, shuffle_storage=False, cls=None, exotic=True):
     c.set_outputs(list(net.outputs))
     if shuffle_storage and rng is not None and c.size:
         labels = list(net.gates)
-        for lbl in rng.sample(labels, rng.randint(1, max(1, len(labels) // 2))):
+        if shuffle_storage == 'reversed' or rng.random() < 0.3:
+            # every user stored before its operands (what a netlist file written outputs-first gives): renaming in
+            # reverse definition order moves each gate behind the gates that read it
+            chosen = list(reversed(labels))
+            STORAGE['reversed'] = STORAGE.get('reversed', 0) + 1
+        else:
+            chosen = rng.sample(labels, rng.randint(1, max(1, len(labels) // 2)))
+        for lbl in chosen:
             tmp = '__tmp__' + lbl
             if c.has_gate(tmp):
                 continue
@@ -225,6 +232,7 @@ def build(net: Net, *, rng=None, shuffle_storage=False, cls=None, exotic=True):
 
 
 CLONES = {}
+STORAGE = {}
 
 
 def twin(net: Net, rng: random.Random, *, dup_outputs=True) -> tuple:
